@@ -278,3 +278,81 @@ def print_filter_symbolic(y, m):
     if got != want:
         return 'print-filter'
     return 'ok'
+
+
+@cond('C14.balances.history', quick=240,
+      bounds='two BALANCES [AT f] statements one after the other in one process, each with or without a WHERE clause and with one '
+             'of the three summary functions: each equals the per-account sums computed from the entries',
+      symbolic='posting selection bits', enumerated='WHERE presence and summary function of both statements',
+      params={'f0': bool, 'f1': bool, 'w1': bool, 'w2': bool, 'fn1': int, 'fn2': int})
+def balances_history(f0, f1, w1, w2, fn1, fn2):
+    entries, txns = build(PATTERNS[0], [bool(f0), bool(f1), True], ACCOUNTS[:3])
+    conn = _conn(entries)
+    types = bc_options.get_account_types(ledger.default_options())
+    for where, fn in ((w1, fn1), (w2, fn2)):
+        fname = pick([None, 'units', 'cost'], fn)
+        text = 'BALANCES' + (f' AT {fname}' if fname else '') + (" WHERE posting_flag = '!'" if where else '')
+        _, rows = execute(conn, parse(text))
+        per_account = {}
+        for t in txns:
+            for p in t.postings:
+                if where and p.flag != '!':
+                    continue
+                per_account.setdefault(p.account, inventory.Inventory()).add_position(position.Position(p.units, p.cost))
+        want = [(acc, FUNC_OF[fname](inv)) for acc, inv in sorted(per_account.items(),
+                                                                    key=lambda kv: get_account_sort_key(types, kv[0]))]
+        if [tuple(r) for r in rows] != want:
+            return 'balances-depend-on-earlier-statement'
+    return 'ok'
+
+
+PRINT_PERIODS = [
+    ('CLEAR', (None, None, True)), ('CLOSE ON 2019-02-01', (None, datetime.date(2019, 2, 1), None)),
+    ('CLOSE ON 2019-01-16 CLEAR', (None, datetime.date(2019, 1, 16), True)),
+    ('OPEN ON 2019-01-10 CLOSE ON 2019-02-02 CLEAR', (datetime.date(2019, 1, 10), datetime.date(2019, 2, 2), True)),
+    ("type = 'transaction' CLEAR", (None, None, True)), ('OPEN ON 2019-01-06', (datetime.date(2019, 1, 6), None, None)),
+    ('year = 2019 CLOSE', (None, True, None)),
+]
+
+
+def _print_period_check(k):
+    from beancount.ops import summarize
+    entries, errors, options = loader.load_string(ledger.LEDGER_TEXT)
+    conn = beanquery.connect('beancount:', entries=entries, errors=[], options=options)
+    text, (d, e, clear) = PRINT_PERIODS[k]
+    c_print = conn.compile(conn.parse('PRINT FROM ' + text))
+    got = [row.entry for row in c_print.table if c_print.where is None or c_print.where(row)]
+    step = entries
+    if d is not None:
+        step, _ = summarize.open_opt(step, d, options)
+    if e is not None:
+        step, _ = summarize.close_opt(step, None if e is True else e, options)
+    if clear:
+        step, _ = summarize.clear_opt(step, None, options)
+    want = [x for x in step if not text.startswith('type') or isinstance(x, data.Transaction)]
+    if got != want:
+        return 'print-selection-after-period-clauses'
+    out = io.StringIO()
+    query_execute.execute_print(c_print, out)
+    # the printed order is the ledger order of the (opened / closed / cleared) entries
+    printed = [(ln[:10], ln[11:].split()[0]) for ln in out.getvalue().splitlines() if re.match(r'\d{4}-\d{2}-\d{2} ', ln)]
+    expected = [(x.date.isoformat(), _directive_word(x)) for x in want]
+    if printed != expected:
+        return 'print-order-after-period-clauses'
+    return 'ok'
+
+
+def _directive_word(entry):
+    if isinstance(entry, data.Transaction):
+        return entry.flag
+    return type(entry).__name__.lower()
+
+
+@cond('C14.print.periods', quick=120,
+      bounds=f'PRINT FROM [expr] with {len(PRINT_PERIODS)} OPEN / CLOSE / CLEAR combinations over the fixture ledger: the directives '
+             'emitted are those of the opened / closed / cleared ledger, in that ledger\'s order (synthesised entries stay where '
+             'the summarisation put them)', symbolic='(none)', enumerated='clause combination', params={'k': int},
+      per_path_timeout=300)
+def print_periods(k):
+    k = enum_int(k, 0, len(PRINT_PERIODS) - 1)
+    return native(_print_period_check, k)
